@@ -121,9 +121,13 @@ def one_refine(case):
     info = {"simtime": (max(fin) - tmin) if fin else 0.0, "tmax": tmax, "nontrivial": any(inf_time[u] < INF and u not in init for u in range(len(labels))),
             "ties": len(inf_time + rec_time) - len(set(inf_time + rec_time))}
     out = []
-    rf, _, _, _ = simcases.call(c, True, sim=SimRandom(SEEDED, seed=1), tables=simcases.Tables(case, labels))
-    ra, _, _, _ = simcases.call(c, False, sim=SimRandom(SEEDED, seed=1), tables=simcases.Tables(case, labels))
+    rf, _, _, tf = simcases.call(c, True, sim=SimRandom(SEEDED, seed=1), tables=simcases.Tables(case, labels))
+    ra, _, _, ta = simcases.call(c, False, sim=SimRandom(SEEDED, seed=1), tables=simcases.Tables(case, labels))
     name = "fast_nonMarkov_SIR"
+    from eonsim import sweeps as _sw
+    bad = _sw.args_violation(c, tf) or _sw.args_violation(c, ta)
+    if bad:
+        return bad, info
     for r, mode in ((rf, "full-data"), (ra, "arrays")):
         if r.status == "exc":
             return [V("crash", "%s/exception/%s" % (name, type(r.exc).__name__),
@@ -226,8 +230,16 @@ def one_builder(case, rng):
     out = []
     weights = case["bweights"]
     tabs.calls = []
+    xkw = {}
+    if case.get("xargs"):
+        xkw = {"trans_time_args": ("T", 1), "rec_time_args": ("R", 2, None)}
+        tabs.expect["trans"], tabs.expect["rec"] = ("T", 1), ("R", 2, None)
     r = run_under(SimRandom(SEEDED, seed=3), EoN.nonMarkov_directed_percolate_network_with_timing, G,
-                  tabs.sir_trans_time, tabs.sir_rec_time, weights=weights)
+                  tabs.sir_trans_time, tabs.sir_rec_time, weights=weights, **xkw)
+    if tabs.bad_args:
+        from eonsim import sweeps as _sw
+        return _sw.args_violation(dict(case, sim="nonMarkov_directed_percolate_network_with_timing"), tabs)
+    tabs.expect.clear()
     if r.status == "done":
         # duration(u) is one value per node, delay(u,v) one per ordered neighbour pair: (possibly random)
         # user rules must be asked exactly once each
